@@ -70,6 +70,17 @@ class FeatureIdStorage:
                 except IndexError:
                     pass
         self.reference_ids = set(self.id_dict.values())
+        # other records (CDS, codons, UTRs) may carry ids of this kind too, e.g. in an annotation written by IsoQuant:
+        # these ids are never given to other coordinates, and a record keeps its own id unless it repeats an exon's one
+        exon_ids = set(self.reference_ids)
+        for f in genedb.region(seqid=chr_id, start=1):
+            if f.featuretype == feature or id_attribute not in f.attributes or not f.attributes[id_attribute]:
+                continue
+            feature_id = f.attributes[id_attribute][0]
+            self.reference_ids.add(feature_id)
+            feature_tuple = (chr_id, f.start, f.end, f.strand)
+            if feature_tuple not in self.id_dict and feature_id not in exon_ids:
+                self.id_dict[feature_tuple] = feature_id
 
     def get_id(self, chr_id, feature, strand):
         feature_tuple = (chr_id, feature[0], feature[1], strand)
